@@ -434,3 +434,95 @@ def strict_identity(spec):
         obls.append(o)
     return {'unit': 'frames.strict_identity', 'obligations': obls, 'wall': time.time() - t0,
             'function': 'compiler.py::Compiler (through %d schema compilations)' % len(schemas)}
+
+
+# ---------------------------------------------------------------------------
+# C16: PageTemplateFile.__init__ must not mutate the caller's search path
+# ---------------------------------------------------------------------------
+def fresh_on_all_paths(stmts, name):
+    """does every path through `stmts` rebind `name` to a freshly built list?  (if/else trees
+    only; anything else counts as 'not established')"""
+    def fresh_value(v):
+        return isinstance(v, ast.List) or (isinstance(v, ast.Call) and isinstance(v.func, ast.Name)
+                                           and v.func.id == 'list')
+    established = False
+    for st in stmts:
+        if isinstance(st, ast.Assign) and len(st.targets) == 1 and isinstance(st.targets[0], ast.Name) \
+                and st.targets[0].id == name:
+            established = fresh_value(st.value)
+        elif isinstance(st, ast.If):
+            a = fresh_on_all_paths(st.body, name)
+            b = fresh_on_all_paths(st.orelse, name) if st.orelse else False
+            if a and b:
+                established = True
+            elif a or b:
+                # one branch rebinds, the other keeps the previous state
+                established = established and False if not (a and b) else True
+        elif isinstance(st, (ast.FunctionDef, ast.Expr, ast.Pass)):
+            continue
+    return established
+
+
+def search_path_frame(spec):
+    t0 = time.time()
+    fn = find(parse('zpt/template.py'), 'PageTemplateFile.__init__')
+    mutates = []
+    for n in ast.walk(fn):
+        if isinstance(n, ast.Call) and isinstance(n.func, ast.Attribute) and n.func.attr in MUTATORS \
+                and isinstance(n.func.value, ast.Name) and n.func.value.id == 'search_path':
+            mutates.append(n.lineno)
+    ok = fresh_on_all_paths(fn.body, 'search_path')
+    obls = [ob('PageTemplateFile.__init__.search_path_frame', ok or not mutates,
+               'the search_path argument is replaced by a freshly built list on every path before '
+               'post_init inserts the template directory into it (the caller\'s and the loader\'s '
+               'list are never modified)',
+               {'mutated_at_lines': mutates, 'fresh_on_all_paths': ok, 'function_line': fn.lineno})]
+    if not obls[0]['status'] == 'discharged':
+        demo = search_path_demo()
+        obls[0]['search'] = demo
+        if demo.get('violates'):
+            obls[0]['confirmed'] = True
+            obls[0]['witness'] = {'inputs': demo.get('inputs'), 'detail': demo.get('detail')}
+    return {'unit': 'frames.search_path_frame', 'function': 'zpt/template.py::PageTemplateFile.__init__',
+            'obligations': obls, 'wall': time.time() - t0}
+
+
+SP_DEMO = r'''
+import json, sys, os, tempfile, shutil
+sys.path.insert(0, os.path.join(sys.argv[1], 'src'))
+from chameleon.zpt.template import PageTemplateFile
+d = tempfile.mkdtemp()
+try:
+    os.mkdir(os.path.join(d, 'sub'))
+    p = os.path.join(d, 'sub', 't.pt')
+    open(p, 'w').write('<a/>')
+    out = {}
+    for kind, sp in (('list', [d]), ('tuple', (d,)), ('str', d)):
+        before = list(sp) if not isinstance(sp, str) else sp
+        PageTemplateFile(p, search_path=sp)
+        after = list(sp) if not isinstance(sp, str) else sp
+        if before != after:
+            out = {'violates': True, 'inputs': {'search_path': repr(before), 'kind': kind},
+                   'detail': 'caller list after construction: %r' % (after,)}
+            break
+    print(json.dumps(out))
+finally:
+    shutil.rmtree(d, ignore_errors=True)
+'''
+
+
+def search_path_demo():
+    fd, path = tempfile.mkstemp(prefix='pyvc-demo-', suffix='.py')
+    try:
+        with os.fdopen(fd, 'w') as f:
+            f.write(SP_DEMO)
+        env = dict(os.environ)
+        env.pop('PYTHONPATH', None)
+        for k in list(env):
+            if k.upper().startswith('CHAMELEON_'):
+                del env[k]
+        p = subprocess.run([PY, path, REPO], capture_output=True, text=True, env=env, timeout=120)
+        line = [l for l in p.stdout.strip().split('\n') if l.startswith('{')]
+        return json.loads(line[-1]) if line else {'stderr': p.stderr[-500:]}
+    finally:
+        os.unlink(path)
